@@ -38,7 +38,7 @@ ID = "C14"
 LEVEL = "exploration"
 TIERS = {
     "quick": {"runs": 1600, "wall": 70, "run_timeout": 240, "shrink_s": 60, "shrink_tries": 400},
-    "thorough": {"runs": 40000, "wall": 1100, "run_timeout": 400, "shrink_s": 180, "shrink_tries": 1500},
+    "thorough": {"runs": 55000, "wall": 1100, "run_timeout": 400, "shrink_s": 180, "shrink_tries": 1500},
 }
 RULE = ("case = seeded world history of 4..22 operations (computations incl. pooled gamma under a seeded line-level schedule, "
         "derivations, mutations with new labels) over <= 7 continua, 3 dissimilarities, samplers and shuffling tools; snapshots of "
